@@ -202,9 +202,10 @@ class Injector:
         (_extract, "elaborate_context"), (_extract, "unwrap_context"), (_glue, "unwrap_context_generator"),
     ]
 
-    def __init__(self, ks: List[Any], kind: int):
+    def __init__(self, ks: List[Any], kind: int, after: bool = False):
         self.ks = ks
         self.kind = kind
+        self.after = after  # raise AFTER the real hook has run (it may already have changed the frame / context)
         self.counter = 0
         self.records: List[Dict[str, Any]] = []
         self.trace: List[str] = []
@@ -213,9 +214,10 @@ class Injector:
         self.build_seq = 0
         self.saved: List[Tuple[Any, str, Any]] = []
 
-    def _maybe_raise(self, site: str, frame_pyframe: Any = None) -> None:
-        self.counter += 1
-        self.trace.append(site)
+    def _maybe_raise(self, site: str, frame_pyframe: Any = None, bump: bool = True) -> None:
+        if bump:
+            self.counter += 1
+            self.trace.append(site)
         for k in self.ks:
             if self.counter == k:  # symbolic comparison
                 b = self.builds[-1] if self.builds else {"id": -1, "constructed": 0, "cur": None, "yielded": 0}
@@ -235,6 +237,23 @@ class Injector:
                     inj.builds[-1]["cur"] = a[0]
                 if name == "elaborate_frame" and inj.builds:
                     inj.builds[-1]["cur"] = a[0].pyframe
+                if inj.after:
+                    inj.counter += 1
+                    inj.trace.append(name)
+                    try:
+                        r = orig(*a, **kw)
+                    finally:
+                        if name == "elaborate_frame" and inj.builds:
+                            inj.builds[-1]["yielded"] += 1
+                    # the hook ran to completion; now the fault (same invocation index)
+                    if name == "elaborate_frame" and inj.builds:
+                        inj.builds[-1]["yielded"] -= 1
+                    try:
+                        inj._maybe_raise(name, bump=False)
+                    finally:
+                        if name == "elaborate_frame" and inj.builds:
+                            inj.builds[-1]["yielded"] += 1
+                    return r
                 inj._maybe_raise(name)
                 try:
                     return orig(*a, **kw)
@@ -322,7 +341,7 @@ def _ctx_stacks(c: Context, acc: List[Stack]) -> None:
             _ctx_stacks(ch, acc)
 
 
-def fault_case(si: int, ks: List[Any], kind: int) -> Dict[str, Any]:
+def fault_case(si: int, ks: List[Any], kind: int, after: bool = False) -> Dict[str, Any]:
     name, mk = SCENARIOS[si]
     obj, cleanup, is_chain = mk()
     try:
@@ -331,7 +350,7 @@ def fault_case(si: int, ks: List[Any], kind: int) -> Dict[str, Any]:
             D.set_behaviour(S3_TREES[si - 2][1])
         if base.error is not None and not name.startswith("S3"):
             return {**out, "ok": False, "why": f"fault-free run has error {base.error!r}", "n_invocations": 0}
-        with Injector(ks, kind) as inj:
+        with Injector(ks, kind, after) as inj:
             try:
                 st = stackscope.extract(obj)
             except BaseException as ex:  # noqa
@@ -418,19 +437,20 @@ def _shard(sh: Dict[str, Any]) -> Dict[str, Any]:
 
     def harness(e: Engine) -> None:
         kind = e.choice("fault_kind", 2)
+        after = e.flag("fault_after_the_hook_ran") if not pairs else False
         k = e.int("k", 1, None)
         ks = [k]
         if pairs:
             k2 = e.int("k2", 1, None)
             e.assume(k2 > k)
             ks.append(k2)
-        r = fault_case(si, ks, kind)
+        r = fault_case(si, ks, kind, after)
         maxinv[0] = max(maxinv[0], r.get("n_invocations", 0))
         if len(samples) < 1 and r.get("faults"):
             samples.append({"scenario": SCENARIOS[si][0], "faults": r["faults"]})
         if not r["ok"]:
             m = e.model()
-            c = {"scenario": si, "ks": [m.get("k")] + ([m.get("k2")] if pairs else []), "kind": kind, "why": r["why"]}
+            c = {"scenario": si, "ks": [m.get("k")] + ([m.get("k2")] if pairs else []), "kind": kind, "after": after, "why": r["why"]}
             key = re.sub(r"[0-9]+", "#", c["why"])[:60]
             if sum(1 for x in cex if re.sub(r"[0-9]+", "#", x["why"])[:60] == key) < 2:
                 cex.append(c)
@@ -503,7 +523,7 @@ def run(rep: Any, tier: str, seed: int) -> None:
     rep.engine_name = f"symx (z3 {z3.get_version_string()})"
     rep.functions = FUNCTIONS
     rep.bounds = {"scenarios": [s for s, _ in SCENARIOS], "fault index k": "every integer >= 1 (unbounded z3 Int; one path per dynamic hook invocation + the beyond-the-end class)",
-                  "fault pairs": "every k < k2 (quick: scenarios S1, S3a, S5; thorough: all)", "fault kinds": ["Exception subclass", "KeyError subclass"],
+                  "fault pairs": "every k < k2 (quick: scenarios S1, S3a, S5; thorough: all)", "fault kinds": ["Exception subclass", "KeyError subclass"], "fault phase": "instead of the hook, or after the hook has run to completion (single faults)",
                   "fault sites": [n for _, n in Injector.SITES] + ["FrameIterator.__next__"]}
     rep.outside = ["BaseExceptions raised by hooks", "faults inside CPython itself", "scenarios outside the corpus"]
     rep.stubs = ["fault injectors: transparent wrappers rebinding the dispatcher names in _extract/_glue and FrameIterator.__next__ for one path",
@@ -522,7 +542,7 @@ def replay(c: Dict[str, Any]) -> Dict[str, Any]:
     if "object" in c:
         why = object_case(c["object"])
         return {"status": "reproduces" if why else "not-reproduced", "detail": why}
-    r = fault_case(c["scenario"], c["ks"], c["kind"])
+    r = fault_case(c["scenario"], c["ks"], c["kind"], bool(c.get("after")))
     return {"status": "reproduces" if not r["ok"] else "not-reproduced", "detail": r}
 
 
